@@ -616,6 +616,7 @@ class ReadParquet(PartitionsFiltered, BlockwiseIO):
         if isinstance(parent, Index):
             # Column projection
             columns = determine_column_projection(self, parent, dependents)
+            columns = columns if isinstance(columns, list) else [columns]
             if set(columns) == set(self.columns):
                 return
             columns = [col for col in self.columns if col in columns]
